@@ -232,6 +232,8 @@ deriving DecidableEq, Repr
 def Sites.current : Sites :=
   ⟨Gen.C17.siteLimitPanics, Gen.C17.siteOffsetPanics, Gen.C17.siteIntPanics, Gen.C17.siteFloatPanics⟩
 def Sites.fixed : Sites := ⟨false, false, false, false⟩
+/-- the code before the fix commits 3a22cf3 / 871e1a6: every conversion was `unwrap()`ped -/
+def Sites.unwrapping : Sites := ⟨true, true, true, true⟩
 def Sites.NoPanic (S : Sites) : Prop := S.limit = false ∧ S.offset = false ∧ S.int = false ∧ S.float = false
 
 /-- a failed conversion inside a grammar action -/
